@@ -62,3 +62,11 @@ impl UnionFind {
         }
     }
 }
+
+#[cfg(feature = "verif-hooks")]
+impl UnionFind {
+    /// Number of slots (verification hook, C07).
+    pub fn verif_len(&self) -> usize {
+        self.inner.len()
+    }
+}
